@@ -16,7 +16,7 @@ READY = True
 STATEFUL = True
 THEOREMS = [
     "C19.std_shape", "C19.decl_syntax",
-    "C19.closure", "C19.build_ok_iff", "C19.declare_order_irrelevant",
+    "C19.closure", "C19.build_ok_iff", "C19.declare_order_irrelevant", "C19.declare_follows_code",
     "C19.options_iff", "C19.strings_iff", "C19.added_to_all", "C19.add_ok_iff",
     "C19.command_dispatch", "C19.parse_accepts", "C19.parse_rejects", "C19.parse_rejects_short",
     "C19.abbrev_unique", "C19.abbrev_ambiguous", "C19.accepts_iff", "C19.std_accepted",
@@ -27,11 +27,14 @@ THEOREMS = [
     "C19.default_cmd_internal_name_counterexample",
 ]
 RULE = ("one case = one ArgParser: declarations (chains, forests, diamonds, dense DAGs, two arms with a late declared ancestor, "
+        "parent chains and ladders 50 / 300 / 1200 (thorough: 2500) commands deep, "
         "a parent given together with its own ancestor, repeated parents, '!' sets; names that contain each other / share "
         "prefixes / contain '-', '_', digits, upper case / are pieces of '-h--help'; blanks of 13 kinds and empty pieces in the "
         "parent list; malformed: unknown/forward/self parents, duplicate and empty names, no commands, all internal, bad "
         "default), constructor switches _no_log/_no_log_file/_help_if_no_args, 0-8 add_argument calls (ArgParser itself, public "
-        "and internal parsers, unknown command; flags, value options, positionals with nargs absent/?/*/+; option strings that "
+        "and internal parsers, unknown command; flags, store_false, store_const, value options, explicit dest=, families of "
+        "options storing into one attribute placed on one parser / parent and child / ArgParser and parser, positionals with "
+        "nargs absent/?/*/+; option strings that "
         "are prefixes of each other and of the standard ones; a stream with conflicting strings; a stream where the default "
         "command takes free words), then argv per (public command, option string) plus random argv (abbreviations, -xyz "
         "clusters with attached values, --opt=value, --, '', '-', negative numbers, std options and their abbreviations, "
@@ -228,6 +231,29 @@ def _show_ns(ns):
 POS_KW = {"pos1": {}, "pos?": {"nargs": "?"}, "pos*": {"nargs": "*"}, "pos+": {"nargs": "+"}}
 
 
+def _kind_parts(kind):
+    """'flag@cache' -> ('flag', 'cache'); 'const=106,115@102,109,116' -> ('const=106,115', 'fmt'); dest None when absent"""
+    base, _, d = kind.partition("@")
+    return base, (dec_str(d) if d else None)
+
+
+def _opt_kwargs(kind):
+    base, dest = _kind_parts(kind)
+    if base.startswith("pos"):
+        kw = dict(POS_KW[base])
+    elif base == "flag":
+        kw = {"action": "store_true"}
+    elif base == "flagoff":
+        kw = {"action": "store_false"}
+    elif base.startswith("const="):
+        kw = {"action": "store_const", "const": dec_str(base[6:])}
+    else:
+        kw = {}
+    if dest is not None:
+        kw["dest"] = dest
+    return kw
+
+
 def _sw(t):
     return {"_no_log": t[0] == "1", "_no_log_file": t[1] == "1", "_help_if_no_args": t[2] == "1"}
 
@@ -286,7 +312,7 @@ class _Session:
                 obj = self.p if target == "*" else self.p.get_cmd_parser(dec_str(target))
             except (ValueError, AssertionError) as e:
                 return "err " + type(e).__name__
-            kw = {"flag": {"action": "store_true"}, "value": {}}.get(kind) if not kind.startswith("pos") else POS_KW[kind]
+            kw = _opt_kwargs(kind)
             try:
                 obj.add_argument(*strs, **kw)
                 return "ok"
@@ -322,7 +348,8 @@ def observable(i, line):
 # ------------------------------------------------------------------ oracle: the property itself
 def _o_decl(s):
     """the documented syntax '!name:parent1,parent2' read independently; the last component says whether the
-    string is written plainly (no blanks around parents, no empty pieces) — only then the statement speaks about it"""
+    string is written plainly (nothing but ASCII blanks around parents, no empty pieces) — only then the statement
+    speaks about it"""
     head, _, par = s.partition(":")
     internal = head.startswith("!")
     name = head[1:] if internal else head
@@ -331,7 +358,9 @@ def _o_decl(s):
     if ":" in s and not par:
         plain = False                      # 'name:' with an empty parent list
     for p in pieces:
-        if p != p.strip() or not p:
+        # plain ASCII blanks around a parent name ("pull: fetch, net") are the ordinary way to write such a list and
+        # the code strips them on purpose; other white space and empty pieces stay outside the statement
+        if p.strip(" ") != p.strip() or not p.strip(" "):
             plain = False
         p = p.strip()
         if p and p not in parents:
@@ -373,7 +402,13 @@ def _std_specs(no_log):
     return out + [(["--color"], "color"), (["--no-color"], "nocolor")]
 
 
+def _base(kind):
+    return kind.partition("@")[0]
+
+
 def _dest(strs, kind):
+    if "@" in kind:
+        return _kind_parts(kind)[1]
     if kind.startswith("pos"):
         return strs[0]
     longs = [s for s in strs if s.startswith("--")]
@@ -417,16 +452,20 @@ def _expect(rest, acc):
     poss = [spec for spec in acc if spec[1].startswith("pos")]
     if len(poss) > 1:
         return None                       # several positionals: argparse's own business
+    if poss and any(_dest(*sp) == poss[0][0][0] for sp in acc if not sp[1].startswith("pos")):
+        return None                       # an option storing into the positional's attribute
     ns = {}
     for strs, kind in acc:
-        d = _dest(strs, kind)
-        if kind == "flag":
+        d, b = _dest(strs, kind), _base(kind)
+        if b == "flag":
             ns.setdefault(d, False)
-        elif kind == "value":
+        elif b == "flagoff":
+            ns.setdefault(d, True)
+        elif b == "value" or b.startswith("const="):
             ns.setdefault(d, None)
-        elif kind == "count":
+        elif b == "count":
             ns.setdefault(d, 0)
-        elif kind == "color":
+        elif b == "color":
             ns.setdefault(d, "auto")
     # abbreviations (possibly ambiguous ones, which argparse refuses before anything else) anywhere before '--'
     for t in rest:
@@ -467,7 +506,25 @@ def _expect(rest, acc):
         spec, single, att = r
         # -xyz: options without argument are peeled off, one character each
         todo = []
-        while att is not None and single and spec[1] in ("flag", "nocolor", "count", "help"):
+        def noarg(sp):
+            b = _base(sp[1])
+            return b in ("flag", "flagoff", "nocolor", "count", "help") or b.startswith("const=")
+
+        def act(sp):
+            nonlocal nocolor_seen
+            dd_, b = _dest(*sp), _base(sp[1])
+            if b == "flag":
+                ns[dd_] = True
+            elif b == "flagoff":
+                ns[dd_] = False
+            elif b.startswith("const="):
+                ns[dd_] = dec_str(b[6:])
+            elif b == "nocolor":
+                nocolor_seen = True
+            elif b == "count":
+                ns[dd_] = (ns.get(dd_) or 0) + 1 if isinstance(ns.get(dd_) or 0, int) else ns.get(dd_)
+
+        while att is not None and single and noarg(spec):
             if att == "":
                 return EXIT
             todo.append(spec)
@@ -478,26 +535,18 @@ def _expect(rest, acc):
         for sp in todo + [spec]:
             if sp[1] == "help":
                 return EXIT
+        if att is not None and not single and noarg(spec):
+            return EXIT
         for sp in todo:
-            d = _dest(*sp)
-            if sp[1] == "flag":
-                ns[d] = True
-            elif sp[1] == "nocolor":
-                nocolor_seen = True
-            elif sp[1] == "count":
-                ns[d] = ns.get(d, 0) + 1
+            act(sp)
         strs, kind = spec
         d = _dest(strs, kind)
+        kind = _base(kind)
         nxt_is_word = i < len(rest) and rest[i] != "--" and _resolve(rest[i], table) == "word"
-        if kind in ("flag", "nocolor", "count"):
+        if noarg(spec):
             if att is not None:
                 return EXIT
-            if kind == "flag":
-                ns[d] = True
-            elif kind == "nocolor":
-                nocolor_seen = True
-            else:
-                ns[d] = ns.get(d, 0) + 1
+            act(spec)
         elif kind == "value":
             if att is not None:
                 ns[d] = att
@@ -684,6 +733,21 @@ STD_TOKS = ["-v", "--verbose", "--color", "--no-color", "--color=always", "--col
 HELPISH = ["-", "--", "", "h", "help", "e", "l", "p", "--h", "--he", "--hel", "-h-", "-h--", "-hx", "--help=1", "he", "lp"]
 
 
+def _k(base, dest=None, const=None):
+    k = base if const is None else "const=" + enc_str(const)
+    return k if dest is None else k + "@" + enc_str(dest)
+
+
+# options that store into one attribute (store_true/store_false pairs, store_const switches, explicit dest=)
+FAMILIES = [
+    [(_k("flag", "cache"), ["--cache"]), (_k("flagoff", "cache"), ["--no-cache"])],
+    [(_k("const", "fmt", "json"), ["--json"]), (_k("const", "fmt", "yaml"), ["-y", "--yaml"]), (_k("value", "fmt"), ["--format"])],
+    [(_k("flag", "mode"), ["--fast"]), (_k("flagoff", "mode"), ["--slow"]), (_k("const", "mode", "x"), ["-x"])],
+    [(_k("value", "target"), ["--out"]), (_k("value", "target"), ["-t", "--to"])],
+    [(_k("flagoff"), ["--quiet"]), (_k("const", None, "7"), ["--seven"])],
+]
+
+
 def _render_decl(rng, name, internal, parents, sloppy):
     s = ("!" if internal else "") + name
     if parents or (sloppy and rng.random() < 0.2):
@@ -768,7 +832,7 @@ def _abbrev(rng, s):
 def _use(rng, kind, s):
     if s.startswith("--") and rng.random() < 0.25:
         s = _abbrev(rng, s)
-    if kind == "value":
+    if _base(kind) == "value":
         w = rng.choice(WORDS[:5])
         if s.startswith("--"):
             return [s + "=" + w] if rng.random() < 0.4 else [s, w]
@@ -779,8 +843,8 @@ def _use(rng, kind, s):
 
 def _cluster(rng, shorts):
     """-xyz built from the short options in play (flags first, maybe a value option last) and -v"""
-    flags = [s for k, s in shorts if k == "flag"] + ["-v"]
-    vals = [s for k, s in shorts if k == "value"]
+    flags = [s for k, s in shorts if _base(k) != "value"] + ["-v"]
+    vals = [s for k, s in shorts if _base(k) == "value"]
     t = "-" + "".join(rng.choice(flags)[1] for _ in range(rng.choice([1, 2, 2, 3])))
     if vals and rng.random() < 0.4:
         t += rng.choice(vals)[1]
@@ -860,6 +924,29 @@ def _gen_case(rng, tier, stream):
         target = rng.choice([the_default] + [p for d in decls if d[0] == the_default for p in d[2]])
         placed.append((enc_str(target), kind, ["items"]))
         lines.append("opt %s %s %s" % (enc_str(target), kind, enc_str("items")))
+    if stream == "shared-dest":
+        fam = rng.choice(FAMILIES)
+        members = rng.sample(fam, rng.choice([2, len(fam)]) if len(fam) > 2 else 2)
+        base_t = rng.choice(names)
+        below = [d[0] for d in decls if base_t in d[2]]
+        how = rng.choice(["same", "child", "global-first", "global-last", "spread"])
+        meta["shared"] = how
+        for i, (kind, strs) in enumerate(members):
+            if how == "same":
+                target = enc_str(base_t)
+            elif how == "child":
+                target = enc_str(base_t) if i == 0 or not below else enc_str(rng.choice(below))
+            elif how == "global-first":
+                target = "*" if i == 0 else enc_str(rng.choice(names))
+            elif how == "global-last":
+                target = "*" if i == len(members) - 1 else enc_str(rng.choice(names))
+            else:
+                target = enc_str(rng.choice(names))
+            if any(s in used for s in strs):
+                continue
+            used |= set(strs)
+            placed.append((target, kind, strs))
+            lines.append("opt %s %s %s" % (target, kind, " ".join(enc_str(s) for s in strs)))
     for _ in range(nopt):
         kind, strs = _spec(rng)
         if stream != "conflict" and not kind.startswith("pos"):
@@ -886,6 +973,8 @@ def _gen_case(rng, tier, stream):
     argvs = []
     pairs = [(c, kind, s) for c in public for (_, kind, strs) in placed if not kind.startswith("pos") for s in strs]
     rng.shuffle(pairs)
+    if stream == "shared-dest":
+        pairs.sort(key=lambda x: not any(x[2] in strs for fam in FAMILIES for _, strs in fam))
     for c, kind, s in pairs[: (12 if tier == "quick" else 40)]:
         argvs.append([c] + _use(rng, kind, s))
     for c in public[:4]:
@@ -1052,9 +1141,32 @@ def _ws_cases(rng, tier):
                "meta": {"kind": "strip-char"}}
 
 
+def _big_cases(sizes):
+    """long parent chains and ladders (construction + inheritance from the far end): depth matters, not only shape"""
+    for n in sizes:
+        names = [("%04d" % i)[::-1] + "c" for i in range(n)]
+        for shape in ("chain", "ladder"):
+            decls = []
+            for i, nm in enumerate(names):
+                if i == 0:
+                    decls.append(nm)
+                elif shape == "chain" or i < 2:
+                    decls.append("%s:%s" % (nm, names[i - 1]))
+                else:
+                    decls.append("%s:%s,%s" % (nm, names[i - 1], names[i - 2]))     # every step also skips one
+            lines = ["new 000 - " + " ".join(enc_str(d) for d in decls),
+                     "opt %s flag %s" % (enc_str(names[0]), enc_str("--fa")),
+                     "opt %s flag %s" % (enc_str(names[n // 2]), enc_str("--fb")),
+                     _parse_line([names[-1], "--fa", "--fb"]), _parse_line([names[n // 2 - 1], "--fb"]),
+                     _parse_line(["--fa"])]
+            yield {"lines": lines, "meta": {"kind": "big-%s-%d" % (shape, n)}}
+
+
 def gen_cases(rng, tier):
     n = 5000 if tier == "quick" else 50000
     for c in _c19b_cases():
+        yield c
+    for c in _big_cases((50, 300, 1200) if tier == "quick" else (50, 300, 1200, 2500)):
         yield c
     for c in _ws_cases(rng, tier):
         yield c
@@ -1063,8 +1175,8 @@ def gen_cases(rng, tier):
         if r < 0.06:
             yield _gen_single(rng, tier)
             continue
-        stream = ("valid" if r < 0.58 else "free-positional" if r < 0.72 else "conflict" if r < 0.82
-                  else "malformed" if r < 0.97 else "internal-first")
+        stream = ("valid" if r < 0.5 else "shared-dest" if r < 0.6 else "free-positional" if r < 0.72
+                  else "conflict" if r < 0.82 else "malformed" if r < 0.97 else "internal-first")
         yield _gen_case(rng, tier, stream)
     if tier != "quick":
         for c in search_cases(rng, tier):
@@ -1074,6 +1186,8 @@ def gen_cases(rng, tier):
 def search_cases(rng, tier):
     """small exhaustive scope: every DAG on <= 4 commands (parents = any subset of the earlier ones), every
     placement of one flag, every (command, flag) argv; every internal/public marking with >= 1 public"""
+    for c in _big_cases((1200, 300, 50)):
+        yield c
     names = ["a", "b", "c", "d"]
     for n in (1, 2, 3, 4):
         subsets = []
@@ -1188,6 +1302,8 @@ def tags(case, replies):
     yield "stream:" + m.get("kind", "?")
     if "shape" in m:
         yield "shape:" + m["shape"]
+    if "shared" in m:
+        yield "shared-dest:" + m["shared"]
     if "malformed" in m:
         yield "malformed:" + m["malformed"]
     if "switches" in m:
@@ -1195,7 +1311,7 @@ def tags(case, replies):
     yield "new:" + replies[0]
     for l, r in zip(case["lines"], replies):
         if l.startswith("opt "):
-            yield "opt:%s:%s" % (l.split()[2], r)
+            yield "opt:%s:%s" % (l.split()[2].partition("@")[0].partition("=")[0], r)
         elif l.startswith("parse"):
             first = r.split(" | ")[0]
             yield l.split()[0] + ":" + " ".join(first.split()[:3] if first.startswith("err") else first.split()[:1])
@@ -1205,7 +1321,8 @@ def tags(case, replies):
 LEVEL_TEXT = ("Kernel-checked for all declaration lists, all histories of add_argument calls, both _no_log settings and the stated "
               "argv shapes, on the model the driver executes: the documented declaration syntax is read back exactly (decl_syntax); "
               "eager registration yields exactly the transitive closure of the declared parent relation in every reachable "
-              "state; the constructor fails exactly on malformed lists, always with AssertionError (closure, build_ok_iff, "
+              "state, and the one-pass registration the driver executes equals the code's parent-by-parent loop "
+              "(declare_follows_code); the constructor fails exactly on malformed lists, always with AssertionError (closure, build_ok_iff, "
               "declare_order_irrelevant); a parser's option table / option strings are the standard ones plus those placed on "
               "the ArgParser, on the parser or on an ancestor (options_iff, strings_iff, added_to_all); add_argument fails "
               "only on a real clash or an unknown command (add_ok_iff); `[cmd, opt]` gives a namespace with the attribute "
@@ -1220,7 +1337,7 @@ LEVEL_TEXT = ("Kernel-checked for all declaration lists, all histories of add_ar
               "(no_log_file_attr, help_if_no_args); the single-command ArgParser (single_mode). Standard options (with and "
               "without _no_log) and the first-argument test are regenerated from ak/cli_tools.py on every run. model = code by a "
               "differential run (construction outcome, full namespace or SystemExit code per argv, the caller's list after the "
-              "call) and an oracle that computes ancestors from the declarations independently and states acceptance/rejection for exact option strings, -xyz clusters, --opt=value, '--' and words (no claim where an abbreviation is involved, about what --no-color does to `color`, about the caller's list, about the single-command parser).")
+              "call) and an oracle that computes ancestors from the declarations independently and states acceptance/rejection for exact option strings, -xyz clusters, --opt=value, '--' and words (declarations with plain ASCII blanks around parent names included; every option string judged separately, also when several options store into one attribute; no claim where an abbreviation is involved, about what --no-color does to `color`, about the caller's list, about the single-command parser).")
 LEVEL_NOTE = ("default_cmd is `_partial`: the code also keeps a first word that names an internal '!' option set (known finding "
               "c19b; internal_name_gap and default_cmd_internal_name_counterexample state the code's behaviour, "
               "default_cmd_full_if_public_test the full statement under the two-line repair). Proved only through the "
